@@ -55,7 +55,7 @@ if [ "$changed" = "-" ] && [ "$absent" = "-" ]; then
   echo "$name$note | - | - | (generated text identical: the change is outside the translated functions)"; exit 0
 fi
 if ! $C Gen/Source.v >/dev/null 2>&1; then broken="Gen/Source.v(!)"; fi
-for n in "" 2 3 4 5 6 7 8 9 10 11 12; do
+for n in "" 2 3 4 5 6 7 8 9 10 11 12 _rec _rec_fetch _rec_init; do
   f=Proofs/GenEq$n.v
   [ -f "$f" ] || continue
   if ! $C "$f" >"$work/out.txt" 2>&1; then broken="$broken GenEq$n"; fi
